@@ -14,6 +14,9 @@ package suites
 // list (offset, width, field, kind) in source order, plus every statement it did NOT
 // understand (g_unknown): Props/C15.v proves g_unknown = [] and "regenerated layout =
 // documented layout", so nothing is skipped silently.  Source: $VERIF_REPO (default /repo).
+// A second translator (layoutprobe.go) recovers the same layout from the compiled function by
+// probing every bit; it confirms the walker's result and stands in for it when a function has been
+// rewritten in an idiom the walker does not know.
 
 import (
 	"bytes"
@@ -24,6 +27,7 @@ import (
 	"go/token"
 	"os"
 	"path/filepath"
+	"sort"
 	"strconv"
 	"strings"
 
@@ -503,6 +507,13 @@ func lyTranslateLayout(pkgs map[string]*lyPkgInfo, pkgName, fn, outName string, 
 	return res
 }
 
+// lyNorm renders a field list sorted by offset (the order statements appear in does not matter)
+func lyNorm(fs []lyField) string {
+	c := append([]lyField{}, fs...)
+	sort.Slice(c, func(i, j int) bool { return c[i].off < c[j].off })
+	return fmt.Sprint(c)
+}
+
 func layoutsSuite(seed uint64, tier, outDir string) (*core.Result, error) {
 	res := core.NewResult("layouts", seed, tier)
 	repo := os.Getenv("VERIF_REPO")
@@ -533,6 +544,28 @@ func layoutsSuite(seed uint64, tier, outDir string) (*core.Result, error) {
 	sb.WriteString("From Coq Require Import List String.\nFrom GCA Require Import Layout.\nImport ListNotations.\nOpen Scope string_scope.\n")
 	for _, s := range specs {
 		r := lyTranslateLayout(pkgs, s.pkg, s.fn, s.out, s.dec)
+		// second translator: the layout recovered from the compiled function by probing every bit.  It
+		// replaces the walker's result when the walker does not understand the source idiom, and must
+		// agree with it otherwise.
+		pr := lyProbe(s.out)
+		how := "source walk, confirmed by bit probing of the compiled function"
+		switch {
+		case len(r.unknown) > 0 && len(pr.unknown) == 0:
+			res.Count("layout.probed-only")
+			how = "bit probing of the compiled function (the source idiom is not one the walker understands: " + r.unknown[0] + ")"
+			r = &pr
+		case len(r.unknown) > 0:
+			r.unknown = append(r.unknown, pr.unknown...)
+			how = "neither translator understood the function"
+		case len(pr.unknown) > 0:
+			r.unknown = append(r.unknown, pr.unknown...)
+			how = "source walk; the bit probe failed"
+		default:
+			if lyNorm(r.fields) != lyNorm(pr.fields) || r.size != pr.size {
+				r.unknown = append(r.unknown, "the layout read from the source ("+lyNorm(r.fields)+") differs from the layout the compiled function has ("+lyNorm(pr.fields)+")")
+				how = "source walk and bit probe disagree"
+			}
+		}
 		fl := []string{}
 		for _, f := range r.fields {
 			fl = append(fl, fmt.Sprintf("F %d %d %s %s", f.off, f.width, strings.TrimSuffix(coqStr(f.name), "%string"), strings.ReplaceAll(f.kind, "%string", "")))
@@ -542,7 +575,7 @@ func layoutsSuite(seed uint64, tier, outDir string) (*core.Result, error) {
 			un = append(un, strings.TrimSuffix(coqStr(u), "%string"))
 		}
 		sb.WriteString(fmt.Sprintf("Definition %s : glayout :=\n  {| g_size := %d;\n     g_fields := [%s];\n     g_unknown := [%s] |}.\n", r.name, r.size, strings.Join(fl, ";\n                  "), strings.Join(un, "; ")))
-		res.Case(map[string]interface{}{"function": s.pkg + "." + s.fn, "size": r.size, "fields": len(r.fields), "not_understood": r.unknown}, s.fn+fmt.Sprint(r.fields), len(r.unknown) == 0)
+		res.Case(map[string]interface{}{"function": s.pkg + "." + s.fn, "size": r.size, "fields": len(r.fields), "not_understood": r.unknown, "obtained_by": how}, s.fn+fmt.Sprint(r.fields), len(r.unknown) == 0)
 		res.Count("layout")
 	}
 	if err := os.WriteFile(filepath.Join(outDir, "Layouts.v"), []byte(sb.String()), 0644); err != nil {
